@@ -20,7 +20,8 @@ is proved at the strength of the property: `proj_segment_nearest_partial` (one s
 to it, minimal), `proj_segment_horizontal` (closed form for horizontal segments), `proj_polyline_vertices` and
 `proj_polyline_nearest_partial` (polyline: index of the carrying segment, point on it, distance to it, minimal
 over every point of every segment, the skipped zero-length segments included), `proj_polyline_skipped_partial` (a skipped
-segment of non-zero length `< 1e-16` touching a kept one is covered up to `1e-16`). IEEE rounding is outside these
+segment of non-zero length `< 1e-16` touching a kept one is covered up to `1e-16`), `proj_polyline_skipped_run` /
+`proj_polyline_skipped_run_back` (a run of `k` consecutive skipped segments from a kept end: up to `k · 1e-16`). IEEE rounding is outside these
 statements (the horizontal-segment defect D17 and its near-vertical counterpart exist only in floating point).
 
 Front ends (second half of the file): the argument forms of `proj_segment` / `proj_polyligne` (lists vs numpy
@@ -35,7 +36,13 @@ STATE — a table of analytical features (possibly with features called `dist` /
 whose columns are the distance and the segment index of THIS projection of every query, whatever the track of queries
 carried (`mapOnTrackT_ignores_state`); `mapChain_calls`: in chained snapping every call is such a projection of the
 positions of the previous output; `mapOnTrackT_nearest_partial`: the property at full strength through the track
-form; `mapOnTrackT_empty`: a track of queries without observation raises. -/
+form; `mapOnTrackT_empty`: a track of queries without observation raises.
+
+The listed finding as a case (end of the file): `vertical_zerodiv_iff` (which queries raise on a vertical segment) and
+`proj_polyline_vertical_case` (what an answer on a polyline WITH kept vertical segments still guarantees: the reported
+segment is vertical and the point is one of its ends, or the answer is right w.r.t. the non-vertical segments) — the model's
+side of the class `vertical-segment` by which the harness excuses failing answers (recognised from the geometry of the
+input, whatever the failure looks like). -/
 namespace TV.C20
 open TV.Proj
 variable {α : Type} [Field α] [LinearOrder α] [IsStrictOrderedRing α]
@@ -444,8 +451,8 @@ its two ends is also an end of a segment that is kept (the usual case: an isolat
 ones), then for every point `(qx, qy)` of the skipped segment `d ≤ |query - (qx, qy)| + eps` (the distance written with
 the `sqrt` parameter). Together with `proj_polyline_min_partial` (kept segments): on a polyline without kept vertical
 segment whose skipped segments each touch a kept one, the returned distance exceeds the true minimum by less than `eps`.
-Missing: a run of several consecutive skipped segments (the bound is then the length of the run up to the nearest kept
-end; not stated). Exact arithmetic. -/
+A run of several consecutive skipped segments: `proj_polyline_skipped_run` / `proj_polyline_skipped_run_back` below (the
+bound is then the number of skipped segments up to the nearest kept end, times `eps`). Exact arithmetic. -/
 theorem proj_polyline_skipped_partial {sqrt : α → α} (hs : SqrtSpec sqrt) (eps : α) (pts : List (α × α))
     (x y d px py : α) (i : Nat) (h : projPolyligne sqrt eps pts x y = .ok (d, px, py, i))
     (j : Nat) (p1 p2 : α × α) (h1 : pts[j]? = some p1) (h2 : pts[j + 1]? = some p2)
@@ -476,6 +483,88 @@ theorem proj_polyline_skipped_partial {sqrt : α → α} (hs : SqrtSpec sqrt) (e
 distance 3 (every point of the skipped segment is farther than 3 anyway: the bound `d ≤ |q - p| + eps` holds with room) -/
 example : (projPolyligne sqTable 1 [(-4, 3), (4, 3), (4, 7 / 2)] 0 0).toOption = some (3, 0, 3, 0)
     ∧ skipped (1 : Rat) 4 3 4 (7 / 2) = true ∧ skipped (1 : Rat) (-4) 3 4 3 = false := by decide +kernel
+
+/-- `proj_polyline_skipped_run`: a RUN of consecutive skipped segments of non-zero length (each `abs(dx) + abs(dy) < eps`,
+`1e-16`), going FORWARD from a vertex `v` that is an end of a kept segment: if `proj_polyligne` returns `(d, …)`, every point
+`(qx, qy)` of the `(t+1)`-th segment of the run satisfies `d ≤ |query - (qx, qy)| + (t + 1) * eps` — the error made by skipping
+the run is at most the number of skipped segments walked from the nearest kept end, times the threshold. With
+`proj_polyline_skipped_run_back` (runs going backward to a kept end) and `proj_polyline_min_partial` this covers every point of a
+polyline that has a kept segment (a maximal run of skipped segments always touches a kept segment at one of its ends, unless
+every segment is skipped — then `proj_polyligne` raises): without kept vertical segment the returned distance exceeds the true
+minimum by at most (longest run) × `eps`. `proj_polyline_skipped_partial` is the case `r = 1`. Exact arithmetic. -/
+theorem proj_polyline_skipped_run {sqrt : α → α} (hs : SqrtSpec sqrt) (eps : α) (pts : List (α × α))
+    (x y d px py : α) (i : Nat) (h : projPolyligne sqrt eps pts x y = .ok (d, px, py, i))
+    (v r : Nat) (pv : α × α) (hv : pts[v]? = some pv)
+    (hadj : ∃ k q1 q2, pts[k]? = some q1 ∧ pts[k + 1]? = some q2 ∧ skipped eps q1.1 q1.2 q2.1 q2.2 = false ∧
+      (q1 = pv ∨ q2 = pv))
+    (hrun : ∀ t, t < r → ∀ a b, pts[v + t]? = some a → pts[v + t + 1]? = some b → skipped eps a.1 a.2 b.1 b.2 = true) :
+    ∀ t, t < r → ∀ a b, pts[v + t]? = some a → pts[v + t + 1]? = some b →
+      ∀ qx qy, OnSeg a.1 a.2 b.1 b.2 qx qy → d ≤ sqrt (d2 x y qx qy) + ((t + 1 : Nat) : α) * eps := by
+  obtain ⟨_, d0, _, hall⟩ := proj_polyline_min_partial hs eps pts x y d px py i h
+  obtain ⟨k, q1, q2, k1, k2, hk, hends⟩ := hadj
+  obtain ⟨⟨b1, b2⟩, _⟩ := hall k q1 q2 k1 k2 hk
+  have hvd : d * d ≤ d2 x y pv.1 pv.2 := by
+    rcases hends with e | e
+    · rw [← e]; exact b1
+    · rw [← e]; exact b2
+  intro t ht a b ha hb qx qy hq
+  have hlt : fabs (a.1 - b.1) + fabs (a.2 - b.2) < eps := by
+    simpa [skipped] using hrun t ht a b ha hb
+  obtain ⟨n1, _⟩ := onSeg_near_ends _ _ _ _ _ _ hq
+  obtain ⟨e0, ee⟩ := hs _ (d2_nonneg x y qx qy)
+  have hr := run_near eps pts v t pv a hv ha (fun s hs' a' b' ha' hb' => hrun s (Nat.lt_trans hs' ht) a' b' ha' hb')
+  have t1 : |qx - pv.1| ≤ |qx - a.1| + |a.1 - pv.1| := abs_sub_le _ _ _
+  have t2 : |qy - pv.2| ≤ |qy - a.2| + |a.2 - pv.2| := abs_sub_le _ _ _
+  refine near_vertex_bound x y pv.1 pv.2 qx qy d _ _ d0 e0 hvd ee ?_
+  push_cast
+  linarith
+
+/-- `proj_polyline_skipped_run_back`: the same for a run of skipped segments `w, …, w + r - 1` going BACKWARD from the vertex
+`w + r`, an end of a kept segment: every point of segment `w + t` of the run satisfies
+`d ≤ |query - (qx, qy)| + (r - t) * eps`. Exact arithmetic. -/
+theorem proj_polyline_skipped_run_back {sqrt : α → α} (hs : SqrtSpec sqrt) (eps : α) (pts : List (α × α))
+    (x y d px py : α) (i : Nat) (h : projPolyligne sqrt eps pts x y = .ok (d, px, py, i))
+    (w r : Nat) (pv : α × α) (hv : pts[w + r]? = some pv)
+    (hadj : ∃ k q1 q2, pts[k]? = some q1 ∧ pts[k + 1]? = some q2 ∧ skipped eps q1.1 q1.2 q2.1 q2.2 = false ∧
+      (q1 = pv ∨ q2 = pv))
+    (hrun : ∀ t, t < r → ∀ a b, pts[w + t]? = some a → pts[w + t + 1]? = some b → skipped eps a.1 a.2 b.1 b.2 = true) :
+    ∀ t, t < r → ∀ a b, pts[w + t]? = some a → pts[w + t + 1]? = some b →
+      ∀ qx qy, OnSeg a.1 a.2 b.1 b.2 qx qy → d ≤ sqrt (d2 x y qx qy) + ((r - t : Nat) : α) * eps := by
+  obtain ⟨_, d0, _, hall⟩ := proj_polyline_min_partial hs eps pts x y d px py i h
+  obtain ⟨k, q1, q2, k1, k2, hk, hends⟩ := hadj
+  obtain ⟨⟨b1, b2⟩, _⟩ := hall k q1 q2 k1 k2 hk
+  have hvd : d * d ≤ d2 x y pv.1 pv.2 := by
+    rcases hends with e | e
+    · rw [← e]; exact b1
+    · rw [← e]; exact b2
+  intro t ht a b ha hb qx qy hq
+  have hlt : fabs (a.1 - b.1) + fabs (a.2 - b.2) < eps := by
+    simpa [skipped] using hrun t ht a b ha hb
+  obtain ⟨_, n2⟩ := onSeg_near_ends _ _ _ _ _ _ hq
+  obtain ⟨e0, ee⟩ := hs _ (d2_nonneg x y qx qy)
+  have hidx : w + t + 1 + (r - t - 1) = w + r := by omega
+  have hr := run_near eps pts (w + t + 1) (r - t - 1) b pv hb (by rw [hidx]; exact hv)
+    (fun s hs' a' b' ha' hb' => hrun (t + 1 + s) (by omega) a' b'
+      (by rw [show w + (t + 1 + s) = w + t + 1 + s by omega]; exact ha')
+      (by rw [show w + (t + 1 + s) + 1 = w + t + 1 + s + 1 by omega]; exact hb'))
+  have t1 : |qx - pv.1| ≤ |qx - b.1| + |b.1 - pv.1| := abs_sub_le _ _ _
+  have t2 : |qy - pv.2| ≤ |qy - b.2| + |b.2 - pv.2| := abs_sub_le _ _ _
+  rw [abs_sub_comm b.1 pv.1] at t1
+  rw [abs_sub_comm b.2 pv.2] at t2
+  refine near_vertex_bound x y pv.1 pv.2 qx qy d _ _ d0 e0 hvd ee ?_
+  have hc : ((r - t : Nat) : α) = ((r - t - 1 : Nat) : α) + 1 := by
+    have : r - t = (r - t - 1) + 1 := by omega
+    rw [this]; push_cast; simp
+  rw [hc]
+  linarith
+
+/-- non-vacuity of the two run theorems, evaluated on the model (`eps = 1`): `(-4,3),(4,3),(4,13/4),(4,7/2)` — the two last
+segments (length `1/4` each) are skipped, a forward run from the end `(4,3)` of the kept segment 0; the query `(0,0)` →
+segment 0 at distance 3. Reversed polyline: a backward run ending at vertex 2, the answer is carried by segment 2 -/
+example : (projPolyligne sqTable 1 [(-4, 3), (4, 3), (4, 13 / 4), (4, 7 / 2)] 0 0).toOption = some (3, 0, 3, 0)
+    ∧ skipped (1 : Rat) 4 3 4 (13 / 4) = true ∧ skipped (1 : Rat) 4 (13 / 4) 4 (7 / 2) = true
+    ∧ (projPolyligne sqTable 1 [(4, 7 / 2), (4, 13 / 4), (4, 3), (-4, 3)] 0 0).toOption = some (3, 0, 3, 2) := by decide +kernel
+
 
 /-! ## Argument forms and front ends -/
 
@@ -813,5 +902,124 @@ example : (match projOnTrack3 sqTable 1 [(0, 0, 35), (8, 0, 40)] (3, 4, 100) wit
 /-- evaluated on the model: a `Yp` shorter than `Xp` raises `IndexError` -/
 example : (match projPolyligneXY false sqTable 1 [0, 8, 9] [0, 0] 3 4 with
     | .error .index => true | _ => false) = true := by decide +kernel
+
+/-! ## The listed finding `vertical-segment` as a CASE
+
+The harness excuses a failing answer only inside the class of the listed finding D16, and recognises that class from the
+geometry of the input (a kept, exactly vertical segment that the answer depends on), not from one failure pattern. The two
+theorems below are the model's side of that class: which queries raise on a vertical segment, and what an answer of
+`proj_polyligne` on a polyline WITH vertical segments still guarantees. -/
+
+/-- `vertical_zerodiv_iff`: on a vertical segment `(x1,y1)-(x1,y2)` `proj_segment` raises `ZeroDivisionError` exactly when
+the query has the segment's abscissa and the pseudo-foot ordinate `a = y2 - y1` lies between `y1` and `y2` — the
+predicate `zerodiv_vertical` of the harness (exact arithmetic; the numpy form returns inf / nan there instead). In every
+other case it returns an end point (`vertical_as_coded`). -/
+theorem vertical_zerodiv_iff {sqrt : α → α} (hs : SqrtSpec sqrt) (x1 y1 y2 x y : α) (hy : y1 ≠ y2) :
+    projSegment sqrt x1 y1 x1 y2 x y = .error .zerodiv ↔
+      (x = x1 ∧ ((y1 ≤ y2 - y1 ∧ y2 - y1 ≤ y2) ∨ (y2 - y1 ≤ y1 ∧ y2 ≤ y2 - y1))) := by
+  rw [projSegment_vertical hs _ _ _ _ _ hy]
+  constructor
+  · intro h
+    split at h
+    · rename_i hin
+      unfold included at hin
+      simp only [Bool.and_eq_true, Bool.or_eq_true, decide_eq_true_eq] at hin
+      refine ⟨?_, hin.2⟩
+      rcases hin.1 with ⟨a, b⟩ | ⟨a, b⟩
+      · exact le_antisymm b a
+      · exact le_antisymm a b
+    · cases h
+  · rintro ⟨rfl, h⟩
+    have : included x y1 x y2 x (y2 - y1) = true := by
+      unfold included
+      simp only [Bool.and_eq_true, Bool.or_eq_true, decide_eq_true_eq, or_self, le_refl, and_self, true_and]
+      exact h
+    rw [this]; rfl
+
+/-- a `sqrt` that is right on the squares met by the examples of this section -/
+def sqT2 : Rat → Rat := fun v => if v = 1 then 1 else if v = 9 then 3 else if v = 16 then 4 else if v = 25 then 5
+  else if v = 36 then 6 else if v = 64 then 8 else if v = 169 then 13 else if v = 196 then 14 else if v = 225 then 15
+  else if v = 400 then 20 else 0
+
+/-- non-vacuity of `vertical_zerodiv_iff`, both directions, evaluated on the model. Segment `(0,0)-(0,8)`: the query `(0,4)`
+raises (`a = 8` lies in `[0,8]`), the query `(3,4)` does not (its abscissa is not the segment's). Segment `(0,2)-(0,8)`,
+query `(0,4)`: raises (`a = 6` lies in `[2,8]`). Segment `(0,5)-(0,8)`, query `(0,4)`: returns the end point `(0,5)` at
+distance 1 (`a = 3` is outside `[5,8]`) -/
+example : (match projSegment sqT2 0 0 0 8 0 4 with | .error .zerodiv => true | _ => false) = true
+    ∧ (match projSegment sqT2 0 0 0 8 3 4 with | .error .zerodiv => true | _ => false) = false
+    ∧ (match projSegment sqT2 0 2 0 8 0 4 with | .error .zerodiv => true | _ => false) = true
+    ∧ (projSegment sqT2 0 5 0 8 0 4).toOption = some (1, 0, 5) := by decide +kernel
+
+/-- `proj_polyline_vertical_case`: what an answer `(d, (px,py), i)` of `proj_polyligne` guarantees on ANY polyline, kept
+vertical segments included — the formal counterpart of the class `vertical-segment` of the harness. Segment `i` is a
+kept segment and
+* either it is exactly vertical, and then the returned point is one of its two END points (never an interior point:
+  the defect D16) — the answer was built by the defective branch;
+* or it is not vertical, and then the answer is right once the kept vertical segments are left out: the point lies on
+  segment `i`, `d` is its distance to the query, and `d` is at most the distance to every point of segment `i` and of
+  every other kept non-vertical segment.
+Hence every failure of the property on the model involves a kept vertical segment in one of these two ways; a failing
+answer of the real code that is in neither is not an instance of the listed finding. -/
+theorem proj_polyline_vertical_case {sqrt : α → α} (hs : SqrtSpec sqrt) (eps : α) (pts : List (α × α))
+    (x y d px py : α) (i : Nat) (h : projPolyligne sqrt eps pts x y = .ok (d, px, py, i)) :
+    ∃ p1 p2, pts[i]? = some p1 ∧ pts[i + 1]? = some p2 ∧ skipped eps p1.1 p1.2 p2.1 p2.2 = false ∧
+      ((p1.1 = p2.1 ∧ p1.2 ≠ p2.2 ∧ ((px, py) = p1 ∨ (px, py) = p2)) ∨
+       (p1.1 ≠ p2.1 ∧ OnSeg p1.1 p1.2 p2.1 p2.2 px py ∧ 0 ≤ d ∧ d * d = d2 x y px py ∧
+        (∀ qx qy, OnSeg p1.1 p1.2 p2.1 p2.2 qx qy → d * d ≤ d2 x y qx qy) ∧
+        ∀ j q1 q2, pts[j]? = some q1 → pts[j + 1]? = some q2 → skipped eps q1.1 q1.2 q2.1 q2.2 = false →
+          q1.1 ≠ q2.1 → ∀ qx qy, OnSeg q1.1 q1.2 q2.1 q2.2 qx qy → d * d ≤ d2 x y qx qy)) := by
+  have T4 := proj_polyline_min_partial hs eps pts x y d px py i h
+  unfold projPolyligne at h
+  cases hl : polyLoop sqrt eps x y pts 0 none with
+  | error e => rw [hl] at h; cases h
+  | ok res =>
+    rw [hl] at h
+    cases res with
+    | none => cases h
+    | some r =>
+      simp only at h
+      injection h with h
+      subst h
+      obtain ⟨o1, _, _⟩ := polyLoop_spec sqrt eps x y pts 0 none _ hl
+      have hfrom : FromSeg sqrt eps x y pts 0 (d, px, py, i) := by
+        rcases o1 with e | ⟨r, e, f⟩
+        · cases e
+        · injection e with e; rw [e]; exact f
+      obtain ⟨k, p1, p2, ⟨s1, s2⟩, hi, hk, hp⟩ := hfrom
+      simp only [Nat.zero_add] at hi
+      subst hi
+      refine ⟨p1, p2, s1, s2, hk, ?_⟩
+      obtain ⟨⟨a1, a2, t1, t2, _, hon⟩, d0, dd, hall⟩ := T4
+      rw [s1] at t1; rw [s2] at t2
+      injection t1 with t1; injection t2 with t2
+      subst t1; subst t2
+      by_cases hx : p1.1 = p2.1
+      · left
+        simp only at hp
+        by_cases hyy : p1.2 = p2.2
+        · rw [← hx, ← hyy, projSegment_degenerate hs] at hp; cases hp
+        · refine ⟨hx, hyy, ?_⟩
+          rw [← hx, projSegment_vertical hs _ _ _ _ _ hyy] at hp
+          split at hp
+          · cases hp
+          · injection hp with hp
+            obtain ⟨_, _, _, _, he⟩ := nearestEnd_spec hs p1.1 p1.2 p1.1 p2.2 x y
+            rw [hp] at he
+            simp only at he
+            rcases he with ⟨e1, e2⟩ | ⟨e1, e2⟩
+            · left; ext <;> simp [e1, e2]
+            · right; ext <;> simp [e1, e2, hx]
+      · right
+        refine ⟨hx, hon, d0, dd, (hall _ p1 p2 s1 s2 hk).2 hx, ?_⟩
+        intro j q1 q2 u1 u2 hj hne
+        exact (hall j q1 q2 u1 u2 hj).2 hne
+
+
+/-- non-vacuity of `proj_polyline_vertical_case`, both branches, evaluated on the model (`eps = 1` skips exactly the
+zero-length segments on the integer lattice), query `(12,5)`. First branch: `(0,0),(0,14),(-4,17)` → segment 0 (vertical),
+its END point `(0,0)` at distance 13, although the foot `(0,5)` is at distance 12 (the other segment is at distance 15).
+Second branch: `(0,0),(0,14),(20,14)` → segment 1 (horizontal), the foot `(12,14)` at distance 9 -/
+example : (projPolyligne sqT2 1 [(0, 0), (0, 14), (-4, 17)] 12 5).toOption = some (13, 0, 0, 0)
+    ∧ (projPolyligne sqT2 1 [(0, 0), (0, 14), (20, 14)] 12 5).toOption = some (9, 12, 14, 1) := by decide +kernel
 
 end TV.C20
